@@ -246,34 +246,46 @@ func (c *concSession) finish(outs []Out, tag string) *run {
 		if x.r != "" {
 			r.counts[x.op+":"+x.r]++
 		}
-		switch x.op {
-		case "Fund", "Redist":
-			ds := []Desc{}
-			allCons, anyDup := true, false
-			for _, t := range x.ts {
-				t.tid = wd.nm.nextTx
-				wd.nm.nextTx++
-				d, dup, cons := wd.describe(t)
-				ds = append(ds, d)
-				allCons = allCons && cons
-				anyDup = anyDup || dup
-			}
-			if x.op == "Fund" {
-				r.emit(ev{"op": "Fund", "ver": x.a.Ver, "amt": x.a.Amt, "unc": x.a.Unc, "r": x.r, "d": ds, "dup": anyDup, "cons": allCons})
-			} else {
-				r.emit(ev{"op": "Redist", "n": x.a.N, "amt": x.a.Amt, "feeub": 0, "r": x.r, "d": ds, "cons": allCons && !anyDup})
-			}
-		case "RelBegin", "RelEnd":
-			r.emit(ev{"op": x.op, "tid": x.ts[0].tid})
-		case "Bcast":
-			r.emit(ev{"op": "Bcast", "tid": x.ts[0].tid, "r": x.r, "misordered": x.misordered})
-		case "Mine":
-			r.emit(ev{"op": "Mine"})
-		case "Obs":
-			r.emit(wd.obsEvent(x.obs))
-		}
+		r.emit(wd.eventOf(x))
 	}
 	return r
+}
+
+// eventOf names the results of a raw call (the specification's small ids) and renders the event.
+func (wd *world) eventOf(x rawEvent) ev {
+	switch x.op {
+	case "Fund", "Redist", "Split":
+		ds := []Desc{}
+		allCons, anyDup := true, false
+		for _, t := range x.ts {
+			t.tid = wd.nm.nextTx
+			wd.nm.nextTx++
+			d, dup, cons := wd.describe(t)
+			ds = append(ds, d)
+			allCons = allCons && cons
+			anyDup = anyDup || dup
+		}
+		switch x.op {
+		case "Fund":
+			return ev{"op": "Fund", "ver": x.a.Ver, "amt": x.a.Amt, "unc": x.a.Unc, "r": x.r, "d": ds, "dup": anyDup, "cons": allCons}
+		case "Redist":
+			return ev{"op": "Redist", "n": x.a.N, "amt": x.a.Amt, "feeub": 0, "r": x.r, "d": ds, "cons": allCons && !anyDup}
+		}
+		return ev{"op": "Split", "n": x.a.N, "min": x.a.Min, "r": x.r, "d": ds, "cons": allCons && !anyDup}
+	case "RelBegin", "RelEnd", "Release":
+		return ev{"op": x.op, "tid": x.ts[0].tid}
+	case "Bcast":
+		return ev{"op": "Bcast", "tid": x.ts[0].tid, "r": x.r, "misordered": x.misordered}
+	case "Mine":
+		return ev{"op": "Mine"}
+	case "Obs":
+		return wd.obsEvent(x.obs)
+	case "ObsBal":
+		return ev{"op": "ObsBal", "sp": x.obs.sp, "conf": x.obs.conf, "imm": x.obs.imm, "unc": x.obs.unc}
+	case "ObsList":
+		return ev{"op": "ObsList", "list": wd.obsEvent(x.obs)["list"]}
+	}
+	panic("unknown raw event " + x.op)
 }
 
 // TestConcurrent: VERIF_CONC concurrent sessions.
